@@ -159,6 +159,20 @@ def gen_c05(tier, rng):
         ops.append(feed(frame_header(1, 1, 1, 1, 100 + k) + message(5, 6, seg, 0x05, body)))
         exp.append("pk 0" if k < 44 else "pk 1 00000105:1:1:1:0:5:6:0:4:0:1:%d:%s" % (len(total), total.hex()))
     cases.append(Case("c05big", ops, nontrivial=True, tags=("over-65535",), meta={"expected": exp, "noshrink": True}))
+    # the largest legal messages: totals just below and at the 16-bit limit, cut into many segments or into two
+    for total_len in ([65519, 65520, 65535] if tier == "quick" else [65504, 65519, 65520, 65521, 65528, 65534, 65535]):
+        for nseg in (2, 45):
+            sizes = [total_len // nseg] * (nseg - 1)
+            sizes.append(total_len - sum(sizes))
+            seq0 = rng.choice([1, 65500, 65535])
+            ops, exp, total = [], [], b""
+            for k, n in enumerate(sizes):
+                seg = 0x04 if k == 0 else (0x0C if k == nseg - 1 else 0x08)
+                body = bytes([(k * 11 + i * 3) % 256 for i in range(n)])
+                total += body
+                ops.append(feed(frame_header(2, 7, 1, 3, (seq0 + k) % 65536) + message(9, 10, seg, 0x05, body)))
+                exp.append("pk 0" if k < nseg - 1 else "pk 1 00000105:2:7:3:0:9:10:0:4:0:1:%d:%s" % (len(total), total.hex()))
+            cases.append(Case("c05max", ops, nontrivial=True, tags=("largest-legal-message",), meta={"expected": exp, "noshrink": True}))
     # exhaustive: all interleavings of two 3-frame streams
     for rep in range(2 if tier == "quick" else 10):
         a = SegStream(rng, 1, 1, 1, max_seg=5).frames[:]
